@@ -39,11 +39,11 @@ type C07Req struct {
 }
 
 type C07Case struct {
-	Store   string      `json:"store"`
-	Present bool        `json:"present"` // T exists at the start (generation G0, metageneration 1)
-	Workers [][]C07Req  `json:"workers"`
-	Choices []int       `json:"choices,omitempty"`
-	Jitter  []int       `json:"jitter,omitempty"`
+	Store   string     `json:"store"`
+	Present bool       `json:"present"` // T exists at the start (generation G0, metageneration 1)
+	Workers [][]C07Req `json:"workers"`
+	Choices []int      `json:"choices,omitempty"`
+	Jitter  []int      `json:"jitter,omitempty"`
 }
 
 const c07T = "dir/t.bin"
